@@ -83,7 +83,7 @@ func genSuffixText(t *rapid.T, maxLen int) (text []byte, family string) {
 	if n > maxLen {
 		n = maxLen
 	}
-	fam := weighted(t, "family", 3, 2, 2, 2, 2, 3, 3, 3, 3, 3, 3, 4)
+	fam := weighted(t, "family", 3, 2, 2, 2, 2, 3, 3, 3, 3, 3, 3, 4, 3, 9)
 	var out []byte
 	switch fam {
 	case 0:
@@ -230,6 +230,66 @@ func genSuffixText(t *rapid.T, maxLen int) (text []byte, family string) {
 		if rapid.IntRange(0, 3).Draw(t, "mutate") == 0 && len(out) > 0 {
 			out[rapid.IntRange(0, len(out)-1).Draw(t, "mutAt")] ^= 1
 		}
+	case 12:
+		// A random word over a small alphabet, a few dozen to a few hundred
+		// bytes long, repeated many times and cut off somewhere: every B*
+		// substring occurs once per copy, the groups of equal substrings are
+		// tandem repeats of the rank sort and are only separated at the end of
+		// the text, which exhausts the budget on a few hundred bytes.
+		family = "random word repeated many times"
+		wl := rapid.IntRange(8, 200).Draw(t, "wordLen")
+		k := rapid.IntRange(2, 3).Draw(t, "wordAlpha")
+		w := make([]byte, wl)
+		for j := range w {
+			w[j] = byte(rapid.IntRange(0, k-1).Draw(t, "wordByte"))
+		}
+		reps := rapid.IntRange(3, 12).Draw(t, "reps")
+		start := rapid.IntRange(0, wl-1).Draw(t, "wordStart")
+		total := minInt(maxInt(n, 1), reps*wl)
+		if n > 64 && total < n && rapid.Bool().Draw(t, "fillUp") {
+			total = n
+		}
+		for i := 0; i < total; i++ {
+			out = append(out, w[(start+i)%wl])
+		}
+		if rapid.IntRange(0, 4).Draw(t, "mutate") == 0 && len(out) > 0 {
+			out[rapid.IntRange(0, len(out)-1).Draw(t, "mutAt")] ^= 1
+		}
+	case 13:
+		// A word that contains one to three periodic stretches (unit of 2..6
+		// bytes repeated 6..32 times) between random bytes, repeated 4..8
+		// times from a random rotation and cut off near a multiple of its
+		// length. The periodic stretches are tandem repeats of the rank sort,
+		// the repetition of the whole word exhausts its budget while they
+		// are being processed (the only family found to reach trPartialCopy:
+		// about 2 texts in 1000).
+		family = "word with periodic stretches repeated"
+		k := rapid.IntRange(2, 3).Draw(t, "alpha")
+		rnd := func(label string, m int) []byte {
+			o := make([]byte, m)
+			for i := range o {
+				o[i] = byte(rapid.IntRange(0, k-1).Draw(t, label))
+			}
+			return o
+		}
+		var w []byte
+		for p := rapid.IntRange(1, 3).Draw(t, "nparts"); p > 0; p-- {
+			w = append(w, rnd("x", rapid.IntRange(0, 30).Draw(t, "xl"))...)
+			u := rnd("u", rapid.IntRange(2, 6).Draw(t, "ul"))
+			for j := rapid.IntRange(6, 32).Draw(t, "uk"); j > 0; j-- {
+				w = append(w, u...)
+			}
+		}
+		w = append(w, rnd("y", rapid.IntRange(0, 30).Draw(t, "yl"))...)
+		reps := rapid.IntRange(4, 8).Draw(t, "reps")
+		rot := rapid.IntRange(0, len(w)-1).Draw(t, "rot")
+		total := len(w)*reps - rapid.IntRange(0, 3).Draw(t, "cut")
+		if total > maxLen && maxLen >= 64 {
+			total = maxLen
+		}
+		for i := 0; i < total; i++ {
+			out = append(out, w[(rot+i)%len(w)])
+		}
 	default:
 		family = "lz-copy"
 		out = genText(t, "lz", maxInt(n, 1))
@@ -239,7 +299,7 @@ func genSuffixText(t *rapid.T, maxLen int) (text []byte, family string) {
 	}
 	// relabel: map the small symbols to arbitrary byte values so that all 256
 	// values and both orders occur.
-	if fam < 10 && rapid.Bool().Draw(t, "relabel") {
+	if (fam < 10 || fam >= 12) && rapid.Bool().Draw(t, "relabel") {
 		var m [256]byte
 		for i := range m {
 			m[i] = byte(i)
